@@ -6,6 +6,7 @@ import (
 	"go/constant"
 	"go/token"
 	"go/types"
+	"regexp"
 	"sort"
 	"strings"
 
@@ -260,6 +261,60 @@ func F2(rc *RC) {
 			rc.S.Viol("F2", "tensor.(*Dense).GobDecode", pos, strings.Join(bad, "; ")).Sig = strings.Join(bad, "; ")
 		} else {
 			rc.S.Ok("F2", "tensor.(*Dense).GobDecode", pos, "decodes "+strings.Join(dec, ", ")+" and installs each")
+		}
+	}
+}
+
+// F3: one source object per encoder. An encoder puts shape, strides, data order, triangle,
+// dtype, data and mask of ONE tensor on the wire. When an encoder works on a substitute (a
+// materialised copy, a clone) every wire field must come from that same object: strides of the
+// original paired with the data of the copy decode into a scrambled tensor.
+var f3Field = regexp.MustCompile(`([%$]\w+)\.(shape|strides|o|Δ|t|mask|byteSlice\(\)|Shape\(\)|Strides\(\)|Data\(\)|Mask\(\)|DataOrder\(\)|Dtype\(\)|hdr\(\)|Float64s\(\)|array)\b`)
+
+func F3(rc *RC) {
+	rc.S.Declare("F3", "encoder source agreement: in GobEncode, PBEncode and FBEncode every tensor field that reaches the wire (shape, strides, order, triangle, dtype, data, mask) is read from one and the same tensor object", 3)
+	for _, key := range []string{"tensor.(*Dense).GobEncode", "tensor.(*Dense).PBEncode", "tensor.(*Dense).FBEncode"} {
+		fi := anchor(rc, "F3", key)
+		if fi == nil {
+			continue
+		}
+		pos := rc.P.Pos(fi.Decl.Pos())
+		_, tree := sCanon(rc, fi)
+		txt := ir.Render(tree)
+		roots := map[string][]string{}
+		for _, m := range f3Field.FindAllStringSubmatch(txt, -1) {
+			r, f := m[1], m[2]
+			// only tensor-typed roots: the receiver and locals assigned from it
+			roots[r] = append(roots[r], f)
+		}
+		// keep roots that denote tensors: the receiver, and locals defined as the receiver / a copy of it
+		tens := map[string]bool{"$r": true}
+		for _, n := range flatten(tree) {
+			if (n.Kind == "let" || n.Kind == "store") && ldIdent.FindString(n.Target) == n.Target {
+				v := n.Value
+				if v == "$r" || strings.HasPrefix(v, "$r.Materialize()") || strings.HasPrefix(v, "$r.Clone()") || strings.HasPrefix(v, "$r.ShallowClone()") || strings.Contains(v, ".(*tensor.Dense)") {
+					tens[n.Target] = true
+				}
+			}
+		}
+		var used []string
+		for r := range roots {
+			if tens[r] {
+				used = append(used, r)
+			}
+		}
+		sortStrings(used)
+		switch {
+		case len(used) == 0:
+			rc.S.Undec("F3", key, pos, "no tensor field read found")
+		case len(used) == 1:
+			rc.S.Ok("F3", key, pos, fmt.Sprintf("all %d wire fields read from %s", len(roots[used[0]]), used[0]))
+		default:
+			var d []string
+			for _, r := range used {
+				d = append(d, r+": "+strings.Join(uniq(roots[r]), ","))
+			}
+			rc.S.Viol("F3", key, pos, "wire fields are read from different tensor objects - "+strings.Join(d, " ; ")).Sig = strings.Join(d, " ; ")
 		}
 	}
 }
